@@ -179,6 +179,20 @@ class Ctx:
                     pass
         self.log("vdrive %s -> rc=%d in %.1fs" % (" ".join(map(str, args[:6])), p.returncode, time.time() - t))
         if summ is None and not allow_fail:
+            crash = _lindb_crash(p.stdout)
+            if crash:
+                # the process died in a goroutine that runs lindb code only (no harness frame, not started by the
+                # harness): a background job of the code under test panicked on a history the harness is entitled to
+                # drive -- that is behaviour of the real code, not a harness failure
+                print(p.stdout[:200] + "\n...\n" + crash["block"][:2500])
+                out = None
+                for i, a0 in enumerate(args):
+                    if str(a0) == "--out" and i + 1 < len(args) and os.path.exists(str(args[i + 1])):
+                        out = str(args[i + 1])
+                self.violation("ProcessCrash:%s:%s" % (args[0], crash["top"]),
+                               "the process running the real code died: %s in %s (goroutine without harness frames)" % (crash["msg"], crash["top"]),
+                               replay_src=out)
+                raise Unresolved("driver process crashed inside lindb code: vdrive %s" % " ".join(map(str, args[:3])))
             print(p.stdout[-3000:])
             raise Unresolved("driver died without a summary: vdrive %s" % " ".join(map(str, args)))
         return summ, p.returncode, p.stdout
@@ -407,6 +421,43 @@ def split_traces(lines, reset_ev="Reset"):
     if cur:
         out.append(cur)
     return out
+
+
+def _lindb_crash(output):
+    """If the driver output is a Go crash whose crashing goroutine has only lindb / library / runtime frames (no frame of
+    the harness and not created by the harness), returns {msg, top, block}; else None."""
+    lines = output.splitlines()
+    start = None
+    for i, ln in enumerate(lines):
+        if ln.startswith("panic: ") or ln.startswith("fatal error: "):
+            start = i
+            break
+    if start is None:
+        return None
+    msg = lines[start][:200]
+    g = None
+    for i in range(start, min(start + 40, len(lines))):
+        if lines[i].startswith("goroutine ") and ("[running]" in lines[i] or "[syscall" in lines[i]):
+            g = i
+            break
+    if g is None:
+        return None
+    block = []
+    for ln in lines[g:]:
+        if not ln.strip():
+            break
+        block.append(ln)
+    text = "\n".join(block)
+    if "verif/harness" in text or "\nmain." in text or "created by main." in text:
+        return None
+    top = None
+    for ln in block[1:]:
+        if ln.startswith("github.com/lindb/lindb/"):
+            top = ln.rsplit("(", 1)[0].replace("github.com/lindb/lindb/", "")
+            break
+    if top is None:
+        return None
+    return {"msg": msg, "top": top, "block": text}
 
 
 def run_check(prop, fn, level="model_checking"):
